@@ -154,6 +154,22 @@ func (p limbPolicy) Substitute(ev *engine.HintEvent) ([]*big.Int, bool) {
 	return nil, false
 }
 
+// bitsPolicy: adversarial bit decomposition: the first "bit" carries the whole value.
+type bitsPolicy struct{ x *big.Int }
+
+func (p bitsPolicy) NeedSite() bool { return false }
+func (p bitsPolicy) Substitute(ev *engine.HintEvent) ([]*big.Int, bool) {
+	if (ev.Name != "nBits" && ev.Name != "NBits") || ev.Inputs[0].Cmp(p.x) != 0 {
+		return nil, false
+	}
+	out := make([]*big.Int, len(ev.Outputs))
+	for i := range out {
+		out[i] = new(big.Int)
+	}
+	out[0].Set(p.x)
+	return out, true
+}
+
 // decompPolicy: adversarial DecomposeHint (commit checker): honest limbs except that the
 // top limb carries everything that does not fit.
 type decompPolicy struct{ x *big.Int }
@@ -213,6 +229,21 @@ func c06EngineAccepts(face engine.Face, pad bool, fn gadget.Fn, v *big.Int, isGL
 			}
 		}
 	}
+	if r2 := run(bitsPolicy{v}); r2.Verdict == engine.Accept {
+		return true, "non-boolean first digit in the bit-decomposition hint", false
+	}
+	if isGL {
+		// limbs (hi-1, lo+2^32) together with a non-boolean decomposition of the oversized low limb
+		hi := new(big.Int).Rsh(v, 32)
+		lo := new(big.Int).And(v, big.NewInt(0xFFFFFFFF))
+		if hi.Sign() > 0 {
+			lo2 := new(big.Int).Add(lo, pow2(32))
+			r3 := run(multiPolicy{limbPolicy{v, []*big.Int{new(big.Int).Sub(hi, big.NewInt(1)), lo2}}, bitsPolicy{lo2}})
+			if r3.Verdict == engine.Accept {
+				return true, "borrowed limbs with a non-boolean digit for the oversized limb", false
+			}
+		}
+	}
 	if pad {
 		r2 := run(decompPolicy{v})
 		if r2.Verdict == engine.Accept {
@@ -220,6 +251,19 @@ func c06EngineAccepts(face engine.Face, pad bool, fn gadget.Fn, v *big.Int, isGL
 		}
 	}
 	return false, resStr(res), false
+}
+
+// multiPolicy tries several policies in order.
+type multiPolicy []engine.HintPolicy
+
+func (m multiPolicy) NeedSite() bool { return false }
+func (m multiPolicy) Substitute(ev *engine.HintEvent) ([]*big.Int, bool) {
+	for _, p := range m {
+		if o, ok := p.Substitute(ev); ok {
+			return o, true
+		}
+	}
+	return nil, false
 }
 
 func harnRunCommitPaddedOpt(opt engine.Options, fn func(api frontend.API), pad int) engine.Result {
@@ -251,6 +295,41 @@ func c06SolverAccepts(cc *gadget.Compiled, v *big.Int, isGL bool, mech string) (
 			}
 			if err := cc.Solve([]*big.Int{v}, nil, solver.OverrideHint(solver.GetHintID(gl.SplitLimbsHint), h)); err == nil {
 				return true, fmt.Sprintf("limb candidate %d (%s,%s)", i, cand[0], cand[1])
+			}
+		}
+	}
+	nb := stdbits.GetHints()[1]
+	bitsOv := func(target *big.Int) solver.Option {
+		return solver.OverrideHint(solver.GetHintID(nb), func(m *big.Int, in []*big.Int, out []*big.Int) error {
+			if in[0].Cmp(target) == 0 {
+				for i := range out {
+					out[i].SetUint64(0)
+				}
+				out[0].Set(target)
+				return nil
+			}
+			return nb(m, in, out)
+		})
+	}
+	if err := cc.Solve([]*big.Int{v}, nil, bitsOv(v)); err == nil {
+		return true, "non-boolean first digit in the bit-decomposition hint"
+	}
+	if isGL {
+		hi := new(big.Int).Rsh(v, 32)
+		lo := new(big.Int).And(v, big.NewInt(0xFFFFFFFF))
+		if hi.Sign() > 0 {
+			lo2 := new(big.Int).Add(lo, pow2(32))
+			hi2 := new(big.Int).Sub(hi, big.NewInt(1))
+			h := func(_ *big.Int, in []*big.Int, out []*big.Int) error {
+				if in[0].Cmp(v) == 0 {
+					out[0].Set(hi2)
+					out[1].Set(lo2)
+					return nil
+				}
+				return gl.SplitLimbsHint(nil, in, out)
+			}
+			if err := cc.Solve([]*big.Int{v}, nil, solver.OverrideHint(solver.GetHintID(gl.SplitLimbsHint), h), bitsOv(lo2)); err == nil {
+				return true, "borrowed limbs with a non-boolean digit for the oversized limb"
 			}
 		}
 	}
